@@ -29,6 +29,11 @@ def cases(chk):
             if _relevant(d):
                 for f in c06.FLAGSETS:
                     yield "recv", {"d": d, "flags": f, "enc": enc}
+    # messages whose payload the library cannot present: every kind, generated field values and key shapes
+    for i in range(chk.scale(300, 6000)):
+        d = {"tag": "message", "mtype": "text", "hasProto": 1, "media": "absent", "payload": "other", "pseed": r.randrange(1 << 30) if i >= 9 * 4 else i * 1000003 + i,
+             "participant": r.choice([0, 1])}
+        yield "recv", {"d": d, "flags": r.choice(c06.FLAGSETS), "enc": r.choice([0, 1])}
     n = 0
     while n < chk.scale(800, 20000):
         d = c06.rand_desc(r)
